@@ -7,7 +7,7 @@ FIXED_TYPES = ALL_TYPES[:11]
 NAMES = ['A', 'B7', 'Tag_1', 'motor', 'Speed_SP', 'x', 'LongerTagName_0123456789', 'Odd', 'Line.Rate', 'T']
 
 
-def gen_config(rng, ntags=None, sizes=None, with_addresses=True, types=None):
+def gen_config(rng, ntags=None, sizes=None, with_addresses=True, types=None, force_sharing=False):
     """-> list of (name, type, size, address|None)"""
     types = types or ALL_TYPES
     ntags = ntags or rng.choice([1, 2, 3, 4, 6])
@@ -29,6 +29,12 @@ def gen_config(rng, ntags=None, sizes=None, with_addresses=True, types=None):
             used[key] = (t, n)
             address = '0x%x/%d/%d' % key
         cfg.append((name, t, n, address))
+    if force_sharing and with_addresses and len(cfg) >= 3:
+        # deterministic coverage: two tags aliasing one attribute, a third on the same instance
+        n0, t0, s0, _ = cfg[0]
+        cfg[0] = (n0, t0, s0, '0x93/7/1')
+        cfg[1] = (cfg[1][0], t0, s0, '0x93/7/1')
+        cfg[2] = (cfg[2][0], cfg[2][1], cfg[2][2], '0x93/7/2')
     return cfg
 
 
@@ -177,11 +183,65 @@ def gen_unknown(rng, cfg):
     return {'path': {'segment': segs}, 'write_tag': {'type': 0xC3, 'elements': 1, 'data': [1]}}
 
 
+def gen_overlong(rng, cfg, budget=488):
+    """index+elements runs past the end of the tag, elements <= len, index >= 1, but the part actually transferred
+    (one reply's worth for a read, the values carried for a fragmented write) lies inside the tag"""
+    cands = [e for e in cfg if e[1] in rc.TYPES and e[2] >= 3]
+    if not cands:
+        return None
+    big = [e for e in cands if e[2] * rc.size_of(e[1]) > budget + 2 * rc.size_of(e[1])]
+    e = rng.choice(big) if big and rng.random() < 0.7 else rng.choice(cands)
+    name, t, n, address = e
+    size = rc.size_of(t)
+    per = max(1, -(-budget // size))
+    if rng.random() < 0.5 and n > per + 1:
+        i = rng.randrange(1, n - per)
+        cnt = n - i + rng.choice([1, 2, i])
+        cnt = min(cnt, n)
+        segs = path_for(rng, e, i)
+        if rng.random() < 0.5:
+            return 'read-range', {'path': {'segment': segs}, 'read_tag': {'elements': cnt}}
+        return 'read-range', {'path': {'segment': segs}, 'read_frag': {'elements': cnt, 'offset': 0}}
+    i = rng.randrange(1, n - 1)
+    k = rng.randrange(1, n - i)             # values carried: fit inside the tag
+    total = n - i + rng.choice([1, 2])
+    if total > n:
+        return None
+    vals = values_for(rng, t, k)
+    segs = path_for(rng, e, i)
+    return 'write-range', {'path': {'segment': segs}, 'write_frag': {'type': rc.NAME2CODE[t], 'elements': total, 'offset': 0, 'data': vals}}
+
+
+def gen_inconsistent_count(rng, cfg):
+    """a write that carries MORE values than the element count it declares (all of them would still fit inside the tag)"""
+    cands = [e for e in cfg if e[1] in rc.TYPES and e[2] >= 3]
+    if not cands:
+        return None
+    e = rng.choice(cands)
+    name, t, n, address = e
+    i = rng.randrange(0, n - 2)
+    k = rng.randrange(2, min(n - i, 8) + 1)         # values carried
+    declared = rng.randrange(1, k)                  # elements field: fewer
+    vals = values_for(rng, t, k)
+    segs = path_for(rng, e, i if i or rng.random() < 0.5 else None)
+    if rng.random() < 0.6:
+        return 'write-range', {'path': {'segment': segs}, 'write_tag': {'type': rc.NAME2CODE[t], 'elements': declared, 'data': vals}}
+    return 'write-range', {'path': {'segment': segs}, 'write_frag': {'type': rc.NAME2CODE[t], 'elements': declared, 'offset': 0, 'data': vals}}
+
+
 def gen_request(rng, cfg, p_invalid=0.25, allow_unknown=True):
     """-> (label, request dict)"""
     r = rng.random()
     if r < p_invalid:
         k = rng.random()
+        if k < 0.2:
+            o = gen_overlong(rng, cfg)
+            if o is not None:
+                return o
+        if k < 0.3:
+            o = gen_inconsistent_count(rng, cfg)
+            if o is not None:
+                return o
         if k < 0.35:
             return 'read-range', gen_read(rng, cfg, valid=False)
         if k < 0.6:
